@@ -339,7 +339,52 @@ def search(ctx, broken, disagreements):
         try: back = tuple(Affine2D.fromstring(Affine2D(*vals).tostring()))
         except Exception as ex: back = repr(ex)
         if back != vals: viol('tostring then fromstring returns the same matrix', {'matrix': vals}, vals, back)
+    # scale and translation decompositions recompose to the original transform (exact recomposition of the returned floats)
+    for A in decomposition_samples():
+        for which in ('decompose_translation', 'decompose_scale'):
+            n += 1
+            v = judge_decomposition(which, A)
+            if v: viol(which + ': ' + v[0], {'matrix': A}, v[1], v[2])
     return found[:3], {'evaluations': n}
+
+def decomposition_samples():
+    """non-degenerate matrices, well away from the code's own |a| <= 1e-9 'is zero' branch boundary, with the
+    first entry spread over many magnitudes (near-quarter-turn rotations, thin scales, exact zero)"""
+    out = []
+    for deg in (0, 30, 89, 89.9, 89.99, 89.999, 89.9999, 90, 90.002, -90.0005, 135, 180.003, 270.01):
+        c, s = math.cos(math.radians(deg)), math.sin(math.radians(deg))
+        if deg % 90 == 0: c, s = float(round(c)), float(round(s))
+        for (e, f) in ((0.0, 0.0), (3.0, 4.0), (1000.0, 2000.0), (0.5, 0.25)):
+            out.append((c, s, -s, c, e, f))
+            out.append((2 * c, 2 * s, -0.5 * s + 0.25 * c, 0.5 * c + 0.25 * s, e, f))
+    for a in (1.0, -3.0, 1e-2, 5e-4, 5e-5, 3e-6, 2e-7, -4e-5):
+        for (b, c, d) in ((0.0, 0.0, 1.0), (1.0, -1.0, 0.5), (0.25, 2.0, 3.0)):
+            for (e, f) in ((3.0, 4.0), (-120.0, 7.5)):
+                out.append((a, b, c, d, e, f))
+    for (b, c, d) in ((1.0, -1.0, 0.0), (2.0, 3.0, 5.0), (-0.5, 1.0, 1.0)):
+        out.append((0.0, b, c, d, 3.0, 4.0))
+    return out
+
+def judge_decomposition(which, A):
+    """None, or (what, expected, observed). The parts, composed left to right, must give back A; the translation part
+    must be a pure translation, the scale part a pure scale. Recomposition is done in exact rationals from the returned
+    floats; tolerance 1e-9 relative to the largest entry (float evaluation of the closed forms is ~1e-13)."""
+    fa = tuple(F(v) for v in A)
+    if fa[0] * fa[3] - fa[1] * fa[2] == 0: return None
+    try: first, second = getattr(Affine2D(*A), which)()
+    except Exception as ex: return ('raises on a non-degenerate transform', 'two transforms whose composition is the matrix', repr(ex)[:200])
+    p, q = tuple(F(v) for v in first), tuple(F(v) for v in second)
+    if which == 'decompose_translation' and (p[:4] != (1, 0, 0, 1) or q[4:] != (0, 0)):
+        return ('parts are not (translation, 2x2)', 'translation then linear part', [list(map(float, p)), list(map(float, q))])
+    if which == 'decompose_scale' and (p[1], p[2], p[4], p[5]) != (0, 0, 0, 0):
+        return ('first part is not a pure scale', 'scale then remainder', list(map(float, p)))
+    # map through `first` first: matrix of the composition is second @ first
+    got = (q[0]*p[0]+q[2]*p[1], q[1]*p[0]+q[3]*p[1], q[0]*p[2]+q[2]*p[3], q[1]*p[2]+q[3]*p[3],
+           q[0]*p[4]+q[2]*p[5]+q[4], q[1]*p[4]+q[3]*p[5]+q[5])
+    err = max(abs(g - w) for g, w in zip(got, fa))
+    if err > F(1, 10**9) * max(1, max(abs(v) for v in fa)):
+        return ('parts do not recompose to the transform', list(A), list(map(float, got)))
+    return None
 
 def judge_rect_to_rect(src, dst, al, mos):
     par = al if al == 'none' else al + ' ' + mos
